@@ -58,6 +58,7 @@ func (a *aval) String() string {
 
 type ncOutcome struct {
 	entered, deletedProp, cleanedRequired bool
+	cleanedOrder                          bool // PropertyOrder was replaced by something other than itself plus a name
 	appendedOrder                         bool  // the name was appended to PropertyOrder (after being entered)
 	postEntryKnown                        bool  // the code after the entry was followed up to the append or the end of the iteration
 	ownerSet                              *aval // what the table of holders records for the name afterwards (nil: unchanged)
@@ -397,6 +398,9 @@ func (in *ncInterp) observe(i ssa.Instruction) {
 				in.out.appendedOrder = true
 				in.out.postEntryKnown = true
 			}
+			if call, ok := x.Val.(*ssa.Call); !ok || core.CalleeKey(&call.Call) != "builtin.append" {
+				in.out.cleanedOrder = true
+			}
 		}
 	case ssa.CallInstruction:
 		if core.CalleeKey(x.Common()) == "builtin.delete" && len(x.Common().Args) == 2 && c.mentionsField(x.Common().Args[0], "Schema.Properties", 4) {
@@ -652,6 +656,8 @@ func ruleNameConflictScenarios(c *Ctx, rule string, inferFn *ssa.Function, enter
 			ok, why = false, "neither field is emitted by encoding/json (a tie), but the holder's property is kept"
 		case !want.entered && !want.deletedProp && got.deletedProp:
 			ok, why = false, "the holder wins, but its property is deleted"
+		case !want.entered && want.deletedProp && got.deletedProp && !got.cleanedOrder:
+			ok, why = false, "neither field is emitted by encoding/json (a tie) and the holder's property is removed, but its name stays in PropertyOrder: the inferred order lists a name that is not a property, and a property of that name added later is emitted at the position of a field that does not exist"
 		case want.entered && got.postEntryKnown && !got.appendedOrder:
 			ok, why = false, "the newcomer replaces the holder but is not given its own place in PropertyOrder: the property keeps the position of the field that lost (or none), so the inferred order is not the order of the fields encoding/json emits"
 		}
